@@ -127,20 +127,22 @@ Definition k_activated (n : kneighbor) (addr4 : bool) (a : afi) : bool :=
   let f := if nonempty (kn_interface n) then NFDual else if addr4 then NF4 else NF6 in
   activate (match a with A4 => "ipv4" | A6 => "ipv6" end) f (kn_disable_mp n).
 
+Definition read_nbr (n : kneighbor) (addr4 : bool) (route : pfx) : option attrs :=
+  if k_activated n addr4 (pfx_afi route) && mem_p route (kn_allowed n) then
+    let lp := match filter (fun x => mem_p route (snd x)) (kn_with_lp n) with
+              | [] => None
+              | x :: _ => Some (fst x)
+              end in
+    let cs := filter (fun x => mem_p route (snd x)) (kn_with_comm n) in
+    Some (mk_attrs lp
+            (map (fun x => snd (strip_large (fst x))) (filter (fun x => negb (fst (strip_large (fst x)))) cs))
+            (map (fun x => snd (strip_large (fst x))) (filter (fun x => fst (strip_large (fst x))) cs)))
+  else None.
+
 Definition sem_k8s (c : kconfig) (s : session) (route : pfx) : option attrs :=
   match k_find c (s_vrf s) (s_addr s) (s_iface s) with
   | None => None
-  | Some n =>
-      if k_activated n (s_addr4 s) (pfx_afi route) && mem_p route (kn_allowed n) then
-        let lp := match filter (fun x => mem_p route (snd x)) (kn_with_lp n) with
-                  | [] => None
-                  | x :: _ => Some (fst x)
-                  end in
-        let cs := filter (fun x => mem_p route (snd x)) (kn_with_comm n) in
-        Some (mk_attrs lp
-                (map (fun x => snd (strip_large (fst x))) (filter (fun x => negb (fst (strip_large (fst x)))) cs))
-                (map (fun x => snd (strip_large (fst x))) (filter (fun x => fst (strip_large (fst x))) cs)))
-      else None
+  | Some n => read_nbr n (s_addr4 s) route
   end.
 
 (* ---- equality tests for the correspondence ---- *)
